@@ -81,7 +81,8 @@ def gen_program(rng: Any) -> dict[str, Any]:
     return {"backend": rng.choice(["asyncio", "trio"]), "sched_seed": rng.randrange(1 << 30), "shuffle": rng.random() < 0.5,
             "n_instances": n_inst, "n_signals": n_sig, "tasks": tasks,
             # owner instances that all compare (and hash) equal, like value objects / frozen dataclasses
-            "equal_owners": rng.random() < 0.3, "copied_owners": rng.random() < 0.25, "falsy_owners": rng.random() < 0.2, "dataclass_events": rng.random() < 0.25, "held_emitters": rng.random() < 0.4}
+            "equal_owners": rng.random() < 0.3, "copied_owners": rng.random() < 0.25, "falsy_owners": rng.random() < 0.2, "dataclass_events": rng.random() < 0.25, "held_emitters": rng.random() < 0.4,
+            "falsy_events": rng.random() < 0.25}
 
 
 # --------------------------------------------------------------------------- interpretation
@@ -320,6 +321,10 @@ class Run:
             class Ev(Event):  # type: ignore[no-redef]  # noqa: F811
                 n: int = field(compare=False)
                 kind: str = "same"
+
+        if prog.get("falsy_events"):
+            # events that are falsy objects (a batch notification whose payload happens to be empty): events all the same
+            Ev = type("Ev", (Ev,), {"__bool__": lambda self: False})  # type: ignore[misc]
 
         self.Ev = Ev
         ns: dict[str, Any] = {f"s{j}": Signal(Ev) for j in range(prog["n_signals"])}
@@ -565,6 +570,8 @@ def check(run: Run) -> tuple[list[dict[str, Any]], dict[str, int]]:
         inc("histories_with_a_copied_owner")
     if prog.get("falsy_owners"):
         inc("histories_with_falsy_owners")
+    if prog.get("falsy_events"):
+        inc("histories_with_falsy_events")
     if prog.get("held_emitters"):
         inc("histories_whose_dispatchers_keep_the_bound_dispatch_method")
     if prog.get("dataclass_events"):
